@@ -80,8 +80,12 @@ def run(ctx):
                    isinstance(m, FuncInfo) and m.is_static(), loc=ci.module.relpath + ':%d' % ci.node.lineno)
         pe, po = ci.own('_push_entry'), ci.own('_pop_entry')
         if isinstance(pe, FuncInfo) and isinstance(po, FuncInfo):
-            pcalls = {call_name(n) if not isinstance(n.func, ast.Attribute) else n.func.attr for n in ast.walk(pe.node) if isinstance(n, ast.Call)}
-            ocalls = {call_name(n) if not isinstance(n.func, ast.Attribute) else n.func.attr for n in ast.walk(po.node) if isinstance(n, ast.Call)}
+            from rules.common import with_helpers as _wh
+            pe_scope, po_scope = _wh(prog, pe), _wh(prog, po)          # a hook may delegate to a private module function
+            pcalls = {call_name(n) if not isinstance(n.func, ast.Attribute) else n.func.attr
+                      for f_ in pe_scope for n in ast.walk(f_.node) if isinstance(n, ast.Call)}
+            ocalls = {call_name(n) if not isinstance(n.func, ast.Attribute) else n.func.attr
+                      for f_ in po_scope for n in ast.walk(f_.node) if isinstance(n, ast.Call)}
             pair_ok = (('heappush' in pcalls and 'heappop' in ocalls) or ('insort' in pcalls and 'pop' in ocalls) or
                        ('insort_right' in pcalls and 'pop' in ocalls))
             rets = [n for n in ast.walk(po.node) if isinstance(n, ast.Return) and n.value is not None]
@@ -93,7 +97,7 @@ def run(ctx):
                     except Unknown:
                         return False
                 pop0 = any(isinstance(n, ast.Call) and isinstance(n.func, ast.Attribute) and n.func.attr == 'pop' and n.args
-                           and _is_zero(n.args[0]) for n in ast.walk(po.node))
+                           and _is_zero(n.args[0]) for f_ in po_scope for n in ast.walk(f_.node))
             ctx.ob('T1.hook', cls, 'push/pop hooks are a matching pair for the backend and _pop_entry returns the smallest entry',
                    pair_ok and bool(rets) and pop0, loc=po.loc, detail='push uses %s, pop uses %s' % (sorted(pcalls), sorted(ocalls)))
         # T11.heap: the heap backend is changed only through heapq (a plain list mutator bypasses the sift and breaks the
